@@ -56,7 +56,7 @@ func isWithinTimeToIgnoreQueryMessage(t time.Time) bool {
 
 func (c *Conversation) receiveQueryMessage(msg ValidMessage) ([]messageWithHeader, error) {
 	versions := extractVersionsFromQueryMessage(c.Policies, msg)
-	err := c.commitToVersionFrom(versions)
+	err := c.commitToOfferedVersionFrom(versions)
 	if err != nil {
 		return nil, err
 	}
